@@ -848,18 +848,20 @@ PROPS["C19"] = dict(
 
 PROPS["C17"] = dict(
     corr_module="Corr.C17",
-    streams={"hist": dict(runner="C17_run", in_t="C17_in", out_t="C17_out", shard=8, imports=["Model.LockTable"])},
-    n_quick=26, n_thorough=120,
+    streams={"hist": dict(runner="C17_run", in_t="C17_in", out_t="C17_out", shard=8, imports=["Model.LockTable"])},   # streams "oracle" and "strace" are checked by the implementation oracle only
+    n_quick=32, n_thorough=140,
     harness_timeout=1500,
-    rule="16 scripted histories (the F-C17-1 witness create; open(refused, 10 s); commit; open(granted) + lost commit, both opens repeated from a child process; put before the first commit; vacuum; "
+    corpus_seeds=[(17001, 2)],   # log pre-sizing / growth before the first commit, then a second process knocks (caught a seeded unlock through a clone)
+    rule="corpus first (seed 17001): log pre-sizing by begin_batch(wal_pre_size_bytes) and log growth inside batch-mode puts BEFORE the first commit, then four child processes at once try Memvid::open / open_read_only / doctor / a non-blocking flock while the writer is alive. "
+         "Then 23 scripted histories (the F-C17-1 witness create; open(refused, 10 s); commit; open(granted) + lost commit, both opens repeated from a child process; put before the first commit; vacuum; "
          "close + reopen; doctor on the closed file, then open; doctor against a live handle before / after its first commit; vacuum then drop; an opener WAITING in the retry loop (thread) while the writer "
-         "commits twice and closes / just closes / is killed; kill (exit without commit); three writers; create on the path of a live writer (F-C17-2); one oracle-only history: put + commit after a doctor ran on the handle's inode) "
-         "+ random histories of 5-11 ops over up to 5 handles (put, commit, vacuum, open, drop, kill, doctor; at most one refused blocking open each; put -> commit kept adjacent once a lock sits on a replaced inode, "
+         "commits twice and closes / just closes / is killed; kill (exit without commit); three writers; create on the path of a live writer (F-C17-2); one oracle-only history: put + commit after a doctor ran on the handle's inode; every operation that rewrites the file in place before the first writer's first commit -- begin_batch pre-size, growth inside batch puts, a single put larger than the 64 KiB log region, enable_vec / enable_lex, apply_ticket, pre-size + growth after close and reopen (data really shifted) -- each followed by the four child-process probes and an in-process open; oracle-only: downgrade_to_shared (second writer refused, reader admitted) and the upgrade by the next put) "
+         "+ random histories of 5-11 ops over up to 5 handles (put, commit, vacuum, open, drop, kill, doctor, pre-size, begin/end_batch, apply_ticket, enable_lex, enable_vec; at most one refused blocking open each; put -> commit kept adjacent once a lock sits on a replaced inode, "
          "no put by a handle whose inode a doctor rewrote: the model's log region is positional), 12 histories in parallel. Real handles live in one process on separate open file descriptions (flock is per description). "
          "Compared after EVERY step: call Ok / refused, path st_ino changed, non-blocking flock probe on the path (FileLock::try_acquire) refused or a waiter pending on that inode, per live handle whether its lock descriptor's st_ino "
          "differs from the path's; at the end every live handle's frame table and the table a fresh open shows. Oracle on the implementation: never two live writable handles / a doctor with write access next to a live handle "
          "(class by st_ino: lock inode <> path inode -> inode-replaced-under-lock, else two-writers-same-inode), every frame whose commit returned Ok is in the final file, a create refused on the lock leaves the file length unchanged, "
-         "child-process open agrees with the in-process one. non-trivial = a refused call or two live writers; distinct by digest of the op list; histories hit by a Tantivy start-up error under load are retried, then excluded and tagged",
+         "child-process open agrees with the in-process one; a child process let in (exclusively, or as reader next to a live writable handle) while a handle's lock descriptor is on the path's inode is two-writers-same-inode / lock-released-while-writer-alive (not listed: VIOLATION); stream strace: a writer process (create, pre-size, enable_vec/lex, apply_ticket, puts, growth inside put, commits, vacuum, drop) under strace -y -e flock: no flock(LOCK_UN) on the memory file before the handle is dropped, exactly one grant. non-trivial = a refused call or two live writers; distinct by digest of the op list; histories hit by a Tantivy start-up error under load are retried, then excluded and tagged",
     level_text="Unbounded theorems over a model of the lock table at the level of inodes and open file descriptions (flock per description, released with the last descriptor, per inode, rename moves no lock), any number of handles, "
                "any interleaving of open (cut at the rounds of its retry loop) / create / try_open / put / commit / vacuum / drop / kill / doctor. Correct protocol (lock follows the inode, opener re-validates): at most one live writable handle, "
                "its flock on the inode the path names, its view equal to the file, commits keep every frame, a refused open/create changes nothing. Implementation model (self.lock stays on the replaced inode): the property is REFUTED "
@@ -868,10 +870,11 @@ PROPS["C17"] = dict(
     level_note="Known findings F-C17-1 (lock stays on the inode a commit replaced: second writer admitted, commits silently lost) and F-C17-2 (create truncates before it locks). Trusted: Coq kernel + vm_compute; hand-written model of src/lock.rs, "
                "Memvid::create/open/try_open, with_staging_lock's descriptor handling, Drop, doctor's try_open (tied by correspondence); flock/rename semantics as stated in Model/LockTable.v (OS oracle); commit atomic in the model "
                "(the steps inside with_staging_lock are not interleaved); shared-lock readers, downgrade/upgrade, and two handles appending to one inode's log region at once are not modelled; harness.",
-    trusted_base=["flock(2)/rename(2) semantics as written at the top of Model/LockTable.v: lock per open file description, exclusive conflicts with every other description's lock on the inode, released at unlock or last close, rename touches no lock",
+    trusted_base=["strace -f -y -e trace=flock,unlink,unlinkat for the writer's flock calls (markers = unlink of C17MARK-<op>); skipped with a tag when ptrace is unavailable",
+                  "flock(2)/rename(2) semantics as written at the top of Model/LockTable.v: lock per open file description, exclusive conflicts with every other description's lock on the inode, released at unlock or last close, rename touches no lock",
                   "a handle owns its descriptions (no fork / descriptor passing); the lock table is the collection of the handles' lock descriptions"],
     assumptions=["commit (with_staging_lock) is one atomic step of the model; a blocking open is cut into open(path) / each round of the retry loop / give up",
-                 "open_read_only (shared lock), downgrade_to_shared / upgrade_to_exclusive are not modelled: a read-only handle cannot write (its WAL is read-only: put returns 'wal is read-only' even after ensure_writable)",
+                 "open_read_only (shared lock), downgrade_to_shared / upgrade_to_exclusive are not modelled (exercised against the implementation oracle only: history oracle-downgrade, child open_read_only probes): a read-only handle cannot write (its WAL is read-only: put returns 'wal is read-only' even after ensure_writable)",
                  "log records of two handles writing one inode's region overwrite each other by byte offset; the model is positional (write position per handle) and the correspondence histories avoid concurrent appends",
                  "try_recover_from_wal_corruption's blocking lock_exclusive (doctor on a corrupted log) is not modelled"],
     allowed_axioms=[],
@@ -881,13 +884,13 @@ PROPS["C41"] = dict(
     corr_module="Corr.C41",
     streams={"sched": dict(runner="C41_run", in_t="C41_in", out_t="C41_out", shard=3, imports=["Model.Store", "Model.Enrich", "Corr.C01"]),
              "real": dict(runner="C41_real_run", in_t="C41_real_in", out_t="C41_real_out", shard=3, imports=["Model.Store", "Corr.C01"])},
-    n_quick=16, n_thorough=240,
+    n_quick=20, n_thorough=240,
     harness_timeout=3000,
-    rule="stream sched (3/4 of the cases): the real run_worker_loop with the four closures of start_enrichment_worker (same bodies, each behind a gate) against a foreground thread whose calls pass the same gate; "
+    rule="STOP COVERAGE: the handle's stop flag is input state of the loop -- fixed first cases (run on every invocation): stop() BEFORE run_worker_loop is entered with two committed queued documents waiting and the worker offered steps (must return without running one critical section), the same on an empty memory, and stop between every pair of worker steps (0..6 worker steps before the request over two loop iterations at checkpoint_interval 1), each followed by further queued puts + commit after the request and a SECOND stop; generated cases: stop at a random position of the history with the foreground carrying on, stop again at the end, pre-stopped handle 1 in 8; free-running stream: start_enrichment_worker followed immediately by stop() (races with loop entry), and drain / stop / three more queued puts / stop. The stop oracle COUNTS what the worker did after the request (canonical position; gets must be 0, frames processed at most the one it was holding, checkpoints at most 1, critical sections at most 3; zero of everything for a pre-stopped handle; free-running: frames_processed after the request at most 1); the clock only bounds how long the harness looks and on its own yields the tag inconclusive_stop_timeout, not a violation. stream sched (3/4 of the cases): the real run_worker_loop with the four closures of start_enrichment_worker (same bodies, each behind a gate) against a foreground thread whose calls pass the same gate; "
          "a generated token plan decides which thread runs its next critical section, so the interleaving is chosen by the generator: 0-8 worker steps between two foreground calls, "
          "checkpoint_interval in {0,1,2,3,100}, foreground calls put (20-300 B text or 2.5-4 KB chunked; instant_index x enable_embedding in all four combinations, so queued and unqueued documents), "
-         "update with/without payload, delete (preferring queued documents, sometimes an uncommitted id), commit, search, process_all_enrichment, stop always last (with or without first waiting for the queue to drain); "
-         "three fixed first cases: put / worker get+process+complete / commit (F-C41-1), put+commit / get / drain / process+complete (F-C41-2), commit landing between get and process; "
+         "update with/without payload, delete (preferring queued documents, sometimes an uncommitted id), commit, search, process_all_enrichment, stop (see above; with or without first waiting for the queue to drain when it is the only one); "
+         "fixed first cases 0-2: put / worker get+process+complete / commit (F-C41-1), put+commit / get / drain / process+complete (F-C41-2), commit landing between get and process; "
          "every critical section logs under the mutex what it did and saw; the logged order IS the schedule replayed through the model; compared per step: kind of step (idle get / get / process ok / process error / complete / checkpoint / final checkpoint / foreground call), "
          "returned value, queue length, first task, frame_count, next_frame_id; at the end: frame table (id, uri, content tag, role, status, links), enrichment_state of every frame, frames_processed, errors, stopped. "
          "stream real (1/4): the real start_enrichment_worker thread (task_delay_ms 0, checkpoint_interval in {1,2,3,100}) running freely against a foreground thread issuing 5-11 calls in groups of 1-3 per lock acquisition with random yield_now / 50 us - 40 ms sleeps; "
@@ -897,10 +900,10 @@ PROPS["C41"] = dict(
          "non-trivial = the worker processed at least one task (and ran at least 3 critical sections in stream sched); distinct by digest of the schedule / history",
     level_text="Unbounded theorems over a model of run_worker_loop (state machine: top/get, process, complete, checkpoint, stopped), the four closures of start_enrichment_worker, next/process/complete_enrichment_task, mark_frame_enriched, process_all_enrichment and the queue push of put_internal, on top of the C01/C06 frame-table model; a schedule is ANY merge of worker critical sections and foreground calls (put, update, delete, commit, search, drain, stop), any checkpoint_interval. "
                "Proved for all schedules: the exposed frame table is the C01 reference table of the acknowledged foreground calls alone; queue, marked and processed ids are ids queued by a put; the queue has no duplicates; the in-flight task is the first task or already removed; a never-queued frame never changes state; every queued id is still queued, Enriched, processed-before-commit or processed-when-no-longer-Active; "
-               "after stop the worker fetches no new task, processes at most the one it holds and has exited within 4 of its own steps; with a silent foreground 4k+3 worker steps empty a queue of k tasks and, if nothing is pending, every live unprocessed task ends Enriched. "
+               "the stop flag is INPUT state of the loop (run_pre iv b: entered with flag b; entry does not touch it) and is never cleared by anyone; a loop entered with the flag set processes nothing and exits at its first step, for every schedule; a stop requested at ANY position of ANY schedule (pre ++ FStop :: post, either entry flag, anything after it including further puts and stops) lets the worker process at most the one task it was holding (none at the loop top, where its next step is the exit), fetch no new task, and leaves it exited within 4 of its own steps; with a silent foreground 4k+3 worker steps empty a queue of k tasks and, if nothing is pending, every live unprocessed task ends Enriched. "
                "'Every queued frame ends Enriched' is REFUTED (task processed before its put is committed: dropped with 'Frame not found', frame Searchable for ever; F-C41-1) and proved outside that class; 'exactly once' is REFUTED (public process_all_enrichment between the worker's get and complete: processed twice; F-C41-2) and proved outside that class. "
                "Tied to the code by gated runs of the real run_worker_loop compared step by step and by free-running runs of the real worker thread.",
-    level_note="Known findings F-C41-1 (enriched-before-commit) and F-C41-2 (drain-overlaps-worker). Partial: (a) thread scheduling itself is not modelled -- the theorems are about every sequence of critical sections, the mutex is trusted to make them atomic; the lock-free stop test is merged with the critical section that follows it (a stop() landing between the two commutes with that section; the harness reorders that one logged get accordingly); "
+    level_note="Known findings F-C41-1 (enriched-before-commit) and F-C41-2 (drain-overlaps-worker). Partial: (a) thread scheduling itself is not modelled (a stop() racing with the thread's first instruction is covered as the two entry flags b = true / false) -- the theorems are about every sequence of critical sections, the mutex is trusted to make them atomic; the lock-free stop test is merged with the critical section that follows it (a stop() landing between the two commutes with that section; the harness reorders that one logged get accordingly); "
                "(b) Tantivy updates and full-text re-extraction inside process_enrichment_task are outside the model (an index-update error would still mark the frame Enriched and count an error; never observed, flagged by the oracle as process-error if it happens); (c) frame table half under the side condition of C01 (run_ok); (d) start_enrichment_worker_with_embeddings does not use run_worker_loop at all (one process_enrichment_with_embeddings call under a single lock, stop is never read): not covered; "
                "(e) in the free-running stream the schedule is not observable, so only schedule-independent consequences are compared with the model (frame table) or checked by the oracle (counters, states); the step-by-step comparison uses copies of the four closure bodies of start_enrichment_worker (they are closures inside that function and cannot be called separately).",
     trusted_base=["std::sync::Mutex makes every closure body and every foreground call atomic with respect to each other",
@@ -1101,9 +1104,9 @@ PROPS["C22"] = dict(
 PROPS["C21"] = dict(
     corr_module="Corr.C21",
     streams={"doctor": dict(runner="C21_run", in_t="C21_in", out_t="C21_out", shard=8, imports=["Model.Doctor"])},
-    n_quick=16, n_thorough=400,
+    n_quick=20, n_thorough=480,
     harness_timeout=6000,
-    rule="real memories built through the shared driver (1-3 rounds of 2-4 puts of text/binary documents of 1-2300 bytes, 3 in 4 memories with embeddings, a delete + an update + commit per later round), closed normally or left "
+    rule="real memories built through the shared driver in five history profiles -- random; and four with the layout idioms that make payload byte ranges shared or out of id order: (1) put A, put B, commit, update_frame(A, None), commit; (2) payload-less update of a middle frame followed by further puts; (3) update with payload of the oldest + delete of the newest + payload-less update of a middle frame; (4) delete + update with payload + payload-less update of the oldest + vacuum (+ a later put) -- each closed normally or crash-left (pending puts / delete / update with payload / payload-less update). The fixed plan that runs first on every seed starts with profile 1 under rebuild_time_index and under a zeroed time index with default options (a wrong payload-region end at open makes the index rebuild overwrite committed payloads: caught there by the oracle as doctor-failed / frame-altered; confirmed on a scratch worktree with compute_payload_region_end seeded), then the repaired and the known class, then the other profiles under every rebuild option. Random profile: (1-3 rounds of 2-4 puts of text/binary documents of 1-2300 bytes, 3 in 4 memories with embeddings, a delete + an update + commit per later round), closed normally or left "
          "crash-interrupted (drop without commit: 1-3 acknowledged puts, optionally a delete and an update, pending in the log); each case = a COPY of the file + one or two targeted damages made with std::fs "
          "(header footer_offset +k / -k / 0 / beyond EOF / = footer position; header toc_checksum byte flipped; checksum stored inside the TOC flipped; footer magic / toc_len / toc_hash / generation byte flipped; "
          "time index / vector index / one Tantivy segment zeroed, regions taken from the public Header, Toc and footer types; outside the list: log region overwritten with garbage, pointer + footer both damaged) "
@@ -1122,7 +1125,7 @@ PROPS["C21"] = dict(
     level_note="Partial (coarse model): frame content is a tag, index contents are states (none / ok / damaged); what replay, vacuum and rebuild_indexes do to the rows is taken from C01 / C42 (rows = committed + pending applied; vacuum keeps status and content) "
                "and checked here only end to end on real files. Embeddings are not part of a frame; since fix 83a83e8 (F-C14-1) a vector rebuild re-encodes the entries of the index it loads, so the count of embeddings of active frames is unchanged by doctor on an index that decodes (modelled, proved, compared); an index whose bytes are damaged is the only copy: it comes back holding the pending records' embeddings only (0 on a closed file) -- modelled and compared, tagged vectors-lost(damaged-index). "
                "A zeroed Tantivy segment is invisible to probe, open and verify (doctor reports Clean; detection is C20's). Known finding F-C21-2 (F-C21-1 fixed by f76b325). Trusted: Coq kernel + vm_compute; hand-written model (tied by correspondence); "
-               "the abstract description of each damaged file is derived from the damage applied, not re-measured; harness.",
+               "the abstract description of each damaged file is derived from the damage applied, not re-measured; payload placement (windows, cached_payload_end, where the index area goes) is abstracted away in the model: that class is tied by the property oracle on real files only; harness.",
     trusted_base=["replay of pending records = apply to the committed rows (C01's theorem); vacuum preserves status and content of every row (C42's theorem); both are re-observed on every case through the frame table read back",
                   "the TOC is assumed to move when the replay inserts a frame (new payloads are written from the old TOC offset on) and to stay when it only deletes; the harness always includes an insert among the pending records",
                   "a header whose own magic/version is damaged, I/O errors, lock contention, the legacy lexical index and the parallel-segments vector catalog are not modelled"],
